@@ -31,7 +31,7 @@ Theorem C09_rest_is_quiescent_partial :
 Proof. intros k l st K Hl H NJ. apply rest_quiescent; [apply covered_job_run; assumption|exact NJ]. Qed.
 (* partial: (1) `covered st` is assumed for the state in which the API calls stop (it is a post-condition of
    every completion and of the start*JobIfNeeded calls, its preservation by the API calls is not proved);
-   (2) termination of the schedule is not proved. *)
+   (2) superseded by C09_every_schedule_terminates / C09_schedules_end_quiescent below, which need Tinv instead. *)
 
 (* no tag eligible => no tag uncertain, on well-formed tag sets (sorted slots, references to smaller live
    names -- both part of the C06 invariant --, dead slots clean): with the previous theorem, at rest no
